@@ -1238,3 +1238,17 @@ def manager_keys_not_derived(ctx, rule, floor=10):
         ors = [c for x in bodies for c in x.calls_to(r"Option::<.*>::(or_else|or|xor)$")]
         R.check(not ors, rule, "%s:no-fallback-lookup" % fkey(b), "%s has no fallback lookup" % short(b.path), "%s chains a second lookup after a miss (%s)" % (short(b.path), sorted({short(c.name()) for c in ors})), where(ors[0]) if ors else None)
     R.floor(rule, n, floor, "keyed table operations in RequestManager")
+
+
+def wire_ids_derive_both(ctx, rule):
+    """`Id` and `SubscriptionId` are written and read by the *derived* (untagged-enum) serde impls, which mirror each
+    other by construction: a number goes out as a JSON number and comes back as Num, a string as Str. A hand-written
+    impl on one side only (large numbers serialised as strings, ...) makes the id the peer echoes back a different key
+    than the one stored."""
+    F, R = ctx.F, ctx.R
+    for ty in ("SubscriptionId", "Id"):
+        for tr_ in ("Serialize", "Deserialize<'de>"):
+            pat = r"^jsonrpsee_types::params::_::<impl jsonrpsee_types::params::_::_serde::%s for jsonrpsee_types::params::%s<'a>>::%s$" % (re.escape(tr_), ty, "serialize" if tr_ == "Serialize" else "deserialize")
+            derived = F.find(pat)
+            hand = [p_ for p_ in F.bodies if re.search(r"^<jsonrpsee_types::params::%s<.*> as .*%s.*>::(serialize|deserialize)$" % (ty, tr_.split("<")[0]), p_)]
+            R.check(bool(derived) and not hand, rule, "%s:%s-derived" % (ty, tr_.split("<")[0]), "%s for %s is the derived impl" % (tr_.split("<")[0], ty), "%s for %s is not the derived impl any more (%s): the serialiser and the deserialiser of the id no longer mirror each other, so an id can come back from the peer as a different key than the one that was stored" % (tr_.split("<")[0], ty, [short(h) for h in hand] or "no derived impl found"), None)
